@@ -148,10 +148,14 @@ REVERTS: list[tuple[str, str, list[str]]] = [
     ("revert-F11", "fix: record member sizes of a dynamic union", ["C09.R4"]),
     ("revert-F12", "fix: alias typedefs of array and pointer types", ["C20.R6"]),
     ("revert-F13", "fix: emit the integer value of anonymous enum members", ["C20.R7"]),
-    ("revert-F14", "fix: leave structures with byte-based|fix: slice compiled arrays of enums|fix: start a new compiled read block|fix: seek to the field offset when a compiled read block starts behind a gap", ["C03.R8"]),
-    ("revert-F15", "fix: leave structures with byte-based|fix: slice compiled arrays of enums|fix: start a new compiled read block", ["C03.R12"]),
+    ("revert-F14", "fix: leave structures with byte-based|fix: slice compiled arrays of enums|fix: start a new compiled read block when a field offset moves backwards|fix: start a new compiled read block when a field behind|fix: seek to the field offset when a compiled read block starts behind a gap", ["C03.R8"]),
+    ("revert-F15", "fix: start a new compiled read block when a field offset moves backwards|fix: leave structures with byte-based|fix: slice compiled arrays of enums|fix: start a new compiled read block when a field behind", ["C03.R12"]),
     ("revert-F16", "fix: leave structures with byte-based|fix: slice compiled arrays of enums", ["C03.R13"]),
     ("revert-F17", "fix: leave structures with byte-based", ["C03.R14"]),
+    ("revert-F18", "fix: unpack compiled read blocks made of one value", ["C03.R16"]),
+    ("revert-F19", "fix: read char bit fields through their own storage type", ["C03.R17"]),
+    ("revert-F22", "fix: start a new compiled read block when a field offset moves backwards", ["C03.R18"]),
+    ("revert-F20", "fix: keep array sizes that name an earlier field", ["C07.R11", "C10.R8"]),
 ]
 
 # behaviour-preserving textual twins (id, file, old, new)
